@@ -106,6 +106,12 @@ theorem legalM : LegalFrom exData s1 (mvM 0 s1) :=
   ⟨opsM, (run exData [s1] opsM).getD [], 1, legalRun_of_B (by decide +kernel), by decide,
     some_getD _ _ (by decide +kernel), get_getD _ 1 s1 (by decide +kernel)⟩
 
+/-- the start store is built from the empty tree by a legal edit -/
+theorem legal0 : LegalFrom exData (Store.init exData) s0 :=
+  ⟨[.create 0 [] [0, 1]], (run exData [Store.init exData] [.create 0 [] [0, 1]]).getD [], 0,
+    legalRun_of_B (by decide +kernel), by decide, some_getD _ _ (by decide +kernel),
+    get_getD _ 0 (Store.init exData) (by decide +kernel)⟩
+
 theorem sinv0 : SInv exData s0 :=
   ⟨wf_of_wfShB s0 (by decide +kernel), full_of_fullB s0 (by decide +kernel),
     cacheOK_of_cacheOKB exData s0 (by decide +kernel), aligned_of_alignedB s0 (by decide +kernel)⟩
